@@ -50,6 +50,13 @@ def layersOf (sid : String) (p1 p2 : Nat) : Option (List LayerKind) :=
   | "sa_sza" => some [.sa "inv" p1 p2, .sza "inv" p1 p2]
   | "sza_sa_r9" => some [.sza "inv" p1 p2, .sa "inv" p1 p2, .r9]
   | "sza_sel9" => some [.sza "inv" p1 p2, .s9, .r9]
+  -- built over one backend, then moved onto another one with the public `map`: same layers as the
+  -- structure built directly over the final backend
+  | "sza_map" => some [.sza "inv" p1 p2, .sa "inv" p1 p2]
+  | "sa_map" => some [.sa "inv" p1 p2, .r9]
+  | "sa_map_sza" => some [.sa "inv" p1 p2, .sza "inv" p1 p2]
+  | "r9_map" => some [.r9]
+  | "szac_map" => some [.szac p1 p2, .sac p1 p2, .r9]
   | "sac" => some [.sac p1 p2]
   | "szac" => some [.szac p1 p2]
   | "szac_sac_r9" => some [.szac p1 p2, .sac p1 p2, .r9]
